@@ -34,6 +34,13 @@ type (
 		Ref, Idx Term
 		Elem     types.Type
 	}
+	// Interior is the address of a struct field inside heap object Ref (&x.f). It is not a modelled pointer: it can only be
+	// handed to a callee that is called by contract, whose clauses reach the OWNING object through unbox(p, Owner).
+	Interior struct {
+		Ref, Idx Term
+		Prefix   string
+		Elem     types.Type
+	}
 	// Slice is a Go slice header over heap object Ref.
 	Slice struct {
 		Ref, Off, Len, Cap Term
